@@ -213,6 +213,27 @@ def _flow_src():
             else:
                 L += ["        use_lim(x)"]
             L += [""]
+    # adjacent ifs on the same configuration-dependent condition, the first of which changes the condition (fuse)
+    for nm, body in {
+        "then": ["Flow.mode = 1", "if Flow.mode > 0:", "    Flow.mode = 0", "    x[0] = 1.0", "if Flow.mode > 0:", "    x[1] = 2.0"],
+        "else": ["if Flow.mode > 0:", "    x[0] = 1.0", "else:", "    Flow.mode = 1", "if Flow.mode > 0:", "    x[1] = 2.0"],
+        "ctrl": ["if Flow.mode > 0:", "    x[0] = 1.0", "if Flow.mode > 0:", "    x[1] = 2.0"],
+        "lim": ["if Flow.lim > 1:", "    Flow.mode = 0", "    x[0] = 1.0", "if Flow.lim > 1:", "    x[1] = 2.0"],
+    }.items():
+        fn = f"cg_twoifs_{nm}"
+        names.append(fn)
+        L += ["@proc", f"def {fn}(n: size, t: index, x: f32[6]):"] + ["    " + b for b in body] + [""]
+    # control-typed configuration fields handed bare to a callee (the call is the later read)
+    L += ["@proc", "def cg_take(x: f32[6], k: index, b: bool):", "    for j in seq(0, 6):", "        if j < k:",
+          "            x[j] = 1.0", "    if b:", "        x[5] = 2.0", ""]
+    for nm, body in {
+        "index": ["Flow.lim = 2", "Cfg.on = True", "cg_take(x, Flow.lim, Cfg.on)"],
+        "guarded": ["Flow.lim = 2", "Cfg.on = True", "if t > 0:", "    cg_take(x, Flow.lim, Cfg.on)"],
+        "loop": ["Flow.lim = 2", "Cfg.on = False", "for i in seq(0, n):", "    cg_take(x, Flow.lim, Cfg.on)"],
+    }.items():
+        fn = f"cg_barearg_{nm}"
+        names.append(fn)
+        L += ["@proc", f"def {fn}(n: size, t: index, x: f32[6]):"] + ["    " + b for b in body] + [""]
     return "\n".join(L), names
 
 
